@@ -199,6 +199,7 @@ func feed(t stats.TB, part string, ents map[string]entry, f *family, m proto.Mes
 		if !isNative(name) {
 			return
 		}
+		b = exact(b)
 		e := ents[name]
 		p := &probe{part: part, entry: name, input: b, note: how}
 		stage := 0
